@@ -67,6 +67,8 @@ def cases(tier, seed):
                 for layout in ("range", "table1d", "table2d", "both1d", "both2d", "mixed"):
                     for method in ("uniform", "grid"):
                         out.append(dict(type="param", n=n, b=b, layout=layout, method=method, key=key))
+                        if layout in ("range", "mixed"):
+                            out.append(dict(type="param", n=n, b=b, layout=layout, method=method, key=key, keydict=True))
     for n, b in ((3, 1), (4, 2), (5, 2)) if tier == "quick" else ((2, 1), (3, 1), (4, 2), (5, 2), (6, 3), (6, 4)):
         for subset in itertools.product((False, True), repeat=3):
             if not any(subset):
@@ -156,8 +158,12 @@ def run_case(case):
         user = {k: jnp.asarray(a) for k, a in user.items()}
         site = f"DataGeneratorParameter/{layout}"
         # both documented table shapes are valid input: a constructor error is a violation (runner rule)
-        g0 = jinns.data.DataGeneratorParameter(key, n, b, ranges, method, user)
         allk = sorted(set(ranges) | set(user))
+        keyarg = key
+        if case.get("keydict"):
+            # one PRNG key per parameter name (documented alternative), written in non-alphabetical order
+            keyarg = {nm: jax.random.fold_in(key, i) for i, nm in enumerate(allk[::-1])}
+        g0 = jinns.data.DataGeneratorParameter(keyarg, n, b, ranges, method, user)
 
         def chk(vals, k, what):
             vals = np.asarray(vals)
